@@ -113,6 +113,14 @@ def check_C12(ex, sub=None):
                     out.append(V(P, "model-times", "model time advanced by %r at accepted step %d, the step size used was %r" % (float(inc), i + 1, dt), sub, ctx))
                     break
             else:
+                acc_tr_ = [tr for t, tr in enumerate(T) if fin[t]]
+                for i, tr in enumerate(acc_tr_):
+                    if tr.used:
+                        du = tr.used[-1][0]
+                        inc = float(times[i + 1] - times[i])
+                        if not abs(inc - du) <= 64 * EPS * (abs(times[i + 1]) + abs(times[i]) + abs(du)):
+                            out.append(V(P, "model-times", "model time advanced by %r at accepted step %d, its step equations were built with step size %r" % (inc, i + 1, du), sub, ctx))
+                            break
                 # "the step size used": under exact control an accepted point solves the implicit-Euler
                 # equation of the flow for the step size that was *really* used; the recorded model time
                 # increment must be that step size (independent of what was passed down the call chain)
@@ -290,6 +298,18 @@ def check_C18_live(ex, sub=None):
                     return out
                 if frho != (b_rho * 10.0 if refuse else b_rho):
                     out.append(V(P, "live-rho", "trial %d: the filter's penalty went %r -> %r on %s" % (t, b_rho, frho, "refusal" if refuse else "acceptance"), sub, ctx))
+                    return out
+        if vetoed:
+            # "a refused point ... vetoes the step": the solver does not move to it
+            nxt = ex.trials[t + 1] if t + 1 < len(ex.trials) else None
+            if nxt is not None and not same_point(nxt.inp, tr.inp):
+                out.append(V(P, "live-veto", "trial %d was refused by the filter, yet trial %d starts from another point" % (t, t + 1), sub, ctx))
+                return out
+            if nxt is None and ex.result is not None and not same_point(tr.out, tr.inp):
+                rt_ = ex.ref_transform()
+                xr, yr, _ = rt_.to_user(tr.out.x, tr.out.y, np.zeros_like(tr.out.x))
+                if np.shape(xr) == np.shape(ex.result.x) and xr.tobytes() == ex.result.x.tobytes() and yr.tobytes() == ex.result.y.tobytes():
+                    out.append(V(P, "live-veto", "the last trial (%d) was refused by the filter, yet its point is what the solve returned" % t, sub, ctx))
                     return out
         if prev_rho is not None:
             if vetoed and frho != prev_rho * 10.0:
